@@ -750,10 +750,15 @@ RULE = ('prime fields with every residue of MODULUS_BIT_SIZE mod 8 (0..7 spare b
         '(single-bit flips of the last two bytes, integer = p, p+1, 2^bits-1, all-ones, flag combinations, stray bits, '
         'truncations, trailing bytes, random bytes), exhaustive byte strings for the 8-bit modulus and exhaustive extra '
         'byte for the 16/64/128-bit moduli; points: identity, +-G, kG, x = 0, y = 0 (2-torsion), on-curve non-subgroup '
-        'points, projective representatives (Z = 1, Z random, Z = 0) in 4 modes x {affine, projective}; non-trivial = '
+        'points, projective representatives (Z = 1, Z random, Z = 0) in 4 modes x {affine, projective}; curves over '
+        'Fp2/Fp3: points with y in the prime subfield / with every other pattern of zero coordinates (x solved from y), '
+        'y = 0; the ordering itself (cmp, partial_cmp, <, <=, >, >=) on all towers for y vs -y with zero high coordinates, '
+        'equal high coordinates, neighbours; twisted Edwards curves over 8/16/64/128/256-bit base fields with no spare '
+        'bit (flag in an extra byte) incl. all points of a curve over F_251; non-trivial = '
         'the payload has a non-zero entry; distinct = distinct case lines')
 TRUSTED = ['props/C09/configs.json (curve/field constants dumped from the compiled crates; re-compared with the compiled '
            'constants by the harness in every case)',
+           'props/C09/mkte.py (derivation of the twisted-Edwards configurations defined in harness/src/bin/c09.rs)',
            'the byte strings of the decode stream are generator inputs (built by prop.py), not expected values']
 ASSUMPTIONS = ['a field element is modelled by its standard-form integer (into_bigint / from_bigint of C01)',
                'reader = slice reader (read_exact fails with UnexpectedEof on short input); writer = Vec (never fails)',
